@@ -253,6 +253,15 @@ fn check_vertex(
         }
     };
     let size = prog.to_source().len();
+    // docs off: no doc attribute anywhere (items, variants, fields)
+    if v.docs == 0 && squash(&strip_attr(ts.clone(), "doc").to_string()) != squash(&ts.to_string()) {
+        ctx.violation(
+            "C09/docs/docs-emitted-when-off",
+            "docs are switched off but the output contains a #[doc = ..] attribute".to_string(),
+            replay(v),
+            size,
+        );
+    }
     // codec off: no codec attribute anywhere (fields, variants, items, marker fields)
     if v.codec == 0
         && squash(&strip_attr(ts.clone(), "codec").to_string()) != squash(&ts.to_string())
@@ -768,13 +777,32 @@ pub fn run(tier: &str, seed: u64) -> i32 {
                 ];
             }
             prog.defs[D_N].docs = vec![" indented".into()];
+            // docs on FIELDS: the generator does not emit them when docs are on; they must not appear when docs are off
+            for d in prog.defs.iter_mut() {
+                match &mut d.body {
+                    Body::Struct(Fields::Named(fs)) => fs.iter_mut().for_each(|(_, f)| f.docs = vec!["field doc".into()]),
+                    Body::Struct(Fields::Unnamed(fs)) => fs.iter_mut().for_each(|f| f.docs = vec!["field doc".into()]),
+                    Body::Enum(vs) => {
+                        for v in vs.iter_mut() {
+                            match &mut v.fields {
+                                Fields::Named(fs) => fs.iter_mut().for_each(|(_, f)| f.docs = vec!["variant field doc".into()]),
+                                Fields::Unnamed(fs) => fs.iter_mut().for_each(|f| f.docs = vec!["variant field doc".into()]),
+                                Fields::Unit => {}
+                            }
+                        }
+                    }
+                    _ => {}
+                }
+            }
             cases.push(SwitchCase {
                 prog,
                 subcube: false,
             });
         }
     }
-    cases.push(SwitchCase { prog: real_shapes_program(), subcube: false });
+    for (_, prog) in special_programs() {
+        cases.push(SwitchCase { prog, subcube: false });
+    }
     let n_vertices = Vertex::all().len();
     let mut st = sweep(
         &format!(
